@@ -1,4 +1,4 @@
-use std::{cmp, collections::VecDeque, marker::PhantomData};
+use std::{collections::VecDeque, marker::PhantomData};
 
 use daggy::{petgraph::visit::IntoNodeReferences, Dag, Walker};
 
@@ -44,9 +44,15 @@ impl<F> RankCalc<F> {
 
                     // Update child rank to be the greater of any previously calculated rank, and
                     // the rank computed from this iteration.
-                    ranks[child_fn_id.index()] = cmp::max(child_rank_existing, child_rank_maybe);
+                    //
+                    // The child only needs to be revisited when its rank increased; revisiting it
+                    // on every visit of a parent walks every path from the roots, which is
+                    // exponential for layered or dense graphs.
+                    if child_rank_maybe > child_rank_existing {
+                        ranks[child_fn_id.index()] = child_rank_maybe;
 
-                    fn_ids.push_back(child_fn_id);
+                        fn_ids.push_back(child_fn_id);
+                    }
                 });
         }
 
